@@ -23,6 +23,7 @@ META = {
     "trusted_base": ["RFC 8152 CDDL as transcribed in spec/rfc8152.py", "ciborium into_writer", "std Vec::push / IntoIterator order"],
 }
 META["decides"] += ' (As built: encoder arrays are read as sequence values; alternatives for one label are compared as a set; omission guards are canonical.)'
+META["decides"] += ' R-1 also covers CoseKeySet and the map form of ProtectedHeader; R-5 also: the extras loop skips nothing and an encoder raises no error of its own except DuplicateMapKey on a hit in its duplicate set; cbor_bstr does not edit self.'
 
 
 def enc_key(ty):
